@@ -162,6 +162,41 @@ pub fn prefix_family(rng: &mut Rng, tag: &str, prefix_len: usize, multibyte: boo
     }
 }
 
+/// four DISTINCT short keys that a "normalising" server would confuse: a base key and variants that differ
+/// only by trailing / leading white space or line breaks, a trailing NUL or slash, letter case, or the Unicode
+/// composition of one character (precomposed `é` vs `e` + combining acute).  Byte-for-byte different keys
+/// are different keys (C05), on every transport (C09, C12).
+pub fn near_family(rng: &mut Rng, tag: &str) -> Family {
+    let n = rng.range(4, 16) as usize;
+    let mut base = String::from(tag);
+    for _ in 0..n {
+        base.push((b'a' + rng.below(26) as u8) as char);
+    }
+    base.push('é');
+    base.push_str("-17");
+    let mut vars: Vec<String> = vec![
+        format!("{base}\n"),
+        format!("{base}\r\n"),
+        format!("{base} "),
+        format!(" {base}"),
+        format!("{base}\t"),
+        format!("{base}\0"),
+        format!("{base}/"),
+        base.to_uppercase(),
+        base.replace('é', "e\u{301}"),
+        format!("{base}\n\n"),
+    ];
+    // three of them, in random order, around the base key at a random position
+    for i in (1..vars.len()).rev() {
+        let j = rng.below(i as u64 + 1) as usize;
+        vars.swap(i, j);
+    }
+    let mut keys: Vec<String> = vars.into_iter().take(3).collect();
+    let at = rng.below(4) as usize;
+    keys.insert(at, base.clone());
+    Family { what: format!("4 near-identical keys: {:?}", keys), keys }
+}
+
 /// one numeric argument: (RESP value, Some(n) if Rust's i64 parse accepts it)
 fn num_arg(rng: &mut Rng, n: i64) -> RespValue {
     match rng.below(10) {
@@ -497,7 +532,11 @@ pub fn run(seed: u64, n: usize, out: &mut Out) {
                 }
                 // a family of distinct long keys with a shared prefix: each is exhausted in turn (burst 1: allowed, then
                 // denied); every sibling must start fresh
-                let fam = prefix_family(&mut rng, &format!("fam{}_", batch % 10000), [1024usize, 64, 256][k % 3], k % 2 == 1, 2500);
+                let fam = if rng.chance(1, 3) {
+                    near_family(&mut rng, &format!("nf{}_", batch % 10000))
+                } else {
+                    prefix_family(&mut rng, &format!("fam{}_", batch % 10000), [1024usize, 64, 256][k % 3], k % 2 == 1, 2500)
+                };
                 let mut unit = vec![];
                 for key in &fam.keys {
                     for half in ["family-1st", "family-2nd"] {
